@@ -447,8 +447,13 @@ func c20CheckDesc(res *engine.Result, via string, d psi.PmtDescriptor, T int, fa
 				res.Failf(sig("DecodeIso639AudioType"), "body % x: got %#x want %#x", b.body, got, b.exp.audio)
 			}
 		}
-	} else if got := d.DecodeIso639LanguageCode(); got != "" {
-		res.Failf(sig("DecodeIso639LanguageCode-neutral"), "tag %#x body % x: got %q want \"\"", T, b.body, got)
+	} else {
+		if got := d.DecodeIso639LanguageCode(); got != "" {
+			res.Failf(sig("DecodeIso639LanguageCode-neutral"), "tag %#x body % x: got %q want \"\"", T, b.body, got)
+		}
+		if got := d.DecodeIso639AudioType(); got != 0 {
+			res.Failf(sig("DecodeIso639AudioType-neutral"), "tag %#x body % x: got %#x want 0", T, b.body, got)
+		}
 	}
 	// TTML
 	if T == 0x7F {
